@@ -81,6 +81,12 @@ def apply_variant(case, v):
             if Xd is None:
                 return None
             c["Xdev"] = encs(Xd)
+    if v.get("recode"):
+        codes = sorted({x for x in X + (decs(case["Xdev"]) if case["Xdev"] else []) if isinstance(x, float) and x == x})
+        mp = {c: float(i + 1) for i, c in enumerate(codes)}
+        c["X"] = encs([mp.get(x, x) if isinstance(x, float) and x == x else x for x in X])
+        if case["Xdev"] is not None:
+            c["Xdev"] = encs([mp.get(x, x) if isinstance(x, float) and x == x else x for x in decs(case["Xdev"])])
     if v.get("rename") is not None:
         fn = RENAMES[v["rename"]]
         cats = sorted({x for x in X + (decs(case["Xdev"]) if case["Xdev"] else []) + (decs(case["order"]) if case["order"] else [])
@@ -304,6 +310,26 @@ class C11(Prop):
                 c = float_tie_case(rng)
             c["variants"] = variants(c, rng)
             cases.append(c)
+        want, got_ = (4, 0) if tier == "quick" else (30, 0)
+        for _ in range(12 * want):
+            if got_ >= want:
+                break
+            # categorical feature holding float CODES with 7+ significant digits (sharing their first six);
+            # recoding them order-preservingly to 1..k must not change the partition
+            c = gen_case(rng, kind=rng.choice(["plain", "dev"]))
+            if c["ftype"] != "categ":
+                continue
+            names = sorted({x for x in decs(c["X"]) + (decs(c["Xdev"]) if c["Xdev"] else []) if isinstance(x, str)})
+            base_ = rng.choice([1234560.0, 98765430.0])
+            code = {nm_: base_ + i + 1 for i, nm_ in enumerate(names)}
+            c["X"] = encs([code.get(x, x) if isinstance(x, str) else x for x in decs(c["X"])])
+            if c["Xdev"] is not None:
+                c["Xdev"] = encs([code.get(x, x) if isinstance(x, str) else x for x in decs(c["Xdev"])])
+            c["no_model"] = True
+            c["variants"] = [{"name": "recode_small", "recode": True, "perm": None, "index": None},
+                             {"name": "row_permutation", "perm": list(range(len(c["X"])))[::-1], "index": None}]
+            cases.append(c)
+            got_ += 1
         for _ in range(2 if tier == "quick" else 6):
             c = big_case(rng)
             c["variants"] = [v for v in variants(c, rng) if not v.get("affine")][:3]
